@@ -116,6 +116,17 @@ class ExtType:
         raise Unsupported(f"constructing external type {self.name}")
 
 
+class CallableExt(ExtType):
+    """external type token that can also be called (constructor model)"""
+
+    def __init__(self, name, ctor, bases=()):
+        super().__init__(name, bases)
+        self.ctor = ctor
+
+    def __call__(self, *a, **k):
+        return self.ctor(*a, **k)
+
+
 class PropertyType(ExtType):
     def __init__(self):
         super().__init__("property")
